@@ -33,7 +33,13 @@ func DecodeSignature(sig string) (r, s *big.Int, err error) {
 	if len(values) != 2 {
 		return r, s, fmt.Errorf("wrong number of values in signature: got %d, want 2", len(values))
 	}
-	r, _ = new(big.Int).SetString(values[0], 36)
-	s, _ = new(big.Int).SetString(values[1], 36)
+	r, ok := new(big.Int).SetString(values[0], 36)
+	if !ok {
+		return nil, nil, fmt.Errorf("invalid R value in signature")
+	}
+	s, ok = new(big.Int).SetString(values[1], 36)
+	if !ok {
+		return nil, nil, fmt.Errorf("invalid S value in signature")
+	}
 	return r, s, nil
 }
